@@ -11,7 +11,7 @@ from .. import oracle as O
 RULE = ("Valid calendar dates 1990-2029 x notations (d.m.yyyy, dd.mm.yyyy, d/m/yyyy, dd-mm-yyyy, dd.mm.yy for "
         "2000-2029, d <Month> yyyy, d. <Monat> yyyy, <Month> d yyyy, <Month> dth, yyyy, dth of <Month> yyyy "
         "with every month spelling of the frozen vocabulary) x optional clock part (HH:MM, at H:MM, "
-        "h:MMpm, um H Uhr) x reference times 1985-2040. thorough: ALL 14 610 dates x all numeric "
+        "h:MMpm, um H Uhr) x reference times 1985-2040 (for a third of the cases also reference times on the written day itself, before and after the written clock time, and on the neighbouring days). thorough: ALL 14 610 dates x all numeric "
         "notations and a rotating month-name notation, each under 2 reference times; quick: Hypothesis "
         "sample; both tiers: a boundary set (every 29 Feb 1992-2028, first and last day of every month of a leap, a non-leap and a 19xx year) x ALL notations x reference times in leap and non-leap years. Month-name notations skip the years 2000/05/10/15/20/25 (they read as hh:mm with mm a "
         "multiple of 5 - the documented military-time heuristic). Oracle: the written (y, m, d[, h, mi]); "
@@ -83,7 +83,19 @@ def case_of(date, notation, month_name, clock, h, mi, refs):
             "clock": list(clock) if clock else None, "h": h, "mi": mi, "refs": [r.isoformat() for r in refs]}
 
 
+def near_refs(date, h, mi, salt):
+    """reference times close to the written date: the same calendar day before and after the written clock
+    time, the day before and the day after (an absolute date must not care)"""
+    base = dt.datetime(date.year, date.month, date.day)
+    k = int.from_bytes(core.jhash(salt), "big")
+    opts = [base.replace(hour=23, minute=59, second=59), base.replace(hour=min(23, h + 1), minute=mi), base.replace(hour=0, minute=0),
+            base - dt.timedelta(days=1, hours=-15), base + dt.timedelta(days=1, hours=9)]
+    return [opts[k % len(opts)], opts[(k // 7) % len(opts)]]
+
+
 def do(acc, date, notation, month_name, clock, h, mi, refs, origin):
+    if int.from_bytes(core.jhash((date, notation, h, mi)), "big") % 3 == 0:
+        refs = list(refs) + near_refs(date, h, mi, (date, notation, h))
     if notation == "yy" and not 2000 <= date.year <= 2029:
         return
     if notation not in NUMERIC and notation != "yy" and date.year in MIL_YEARS:
